@@ -31,9 +31,14 @@ unbounded) and every staging value at all where no invariant is needed:
   parameters: BLAKE2b-256 and the CBOR encoder are not modelled here; the harness recomputes the
   hash over the body bytes it slices out of `tx_bytes` itself).
 
+* `build_script_data_hash` — `script_data_hash` is present exactly with language views and a redeemer
+  or witness datum, and equals BLAKE2b-256 of C08's `ScriptData` hash input over the witness set that
+  is emitted.
+
 Not modelled (sampled by the stream `txbuild` only): CBOR encoding/decoding of the transaction,
-decoding of caller payloads (a boolean), the hash functions that key scripts and datums, and the
-value of `script_data_hash` / `auxiliary_data_hash` (presence only).
+decoding of caller payloads (a boolean; payloads are taken to be in the form the pallas encoder
+writes back), the hash functions that key scripts and datums, the value of `auxiliary_data_hash`
+(presence only).
 -/
 namespace PallasVerif.Props.C40
 open PallasVerif.TxBuild PallasVerif.Proofs.TxBuild
@@ -144,7 +149,8 @@ theorem build_ok_inv (s : Staging) (tx : BuiltTx) (h : build s = .ok tx) :
       tx = { inputs := dedup (isort inpLe s.inputs), outputs, fee := s.fee.getD 0, ttl := s.invalidFrom,
              validFrom := s.validFrom, mint := nonZeroAssets (fun q => decide (q = 0)) s.mint,
              collateral := s.collIns, signers := s.signers, networkId := s.networkId,
-             collateralReturn := collRet, refInputs := s.refInputs, scriptDataHash := s.langViews.isSome,
+             collateralReturn := collRet, refInputs := s.refInputs,
+             scriptDataHash := scriptDataHashOf redeemers datums s.langViews,
              auxDataHash := s.aux.isSome, scripts := s.scripts.map (fun e => (e.2.kind, e.2.body.bytes)),
              datums, redeemers, aux := s.aux } := by
   unfold build at h
@@ -449,7 +455,7 @@ theorem build_content (s : Staging) (tx : BuiltTx) (h : build s = .ok tx) :
     tx.validFrom = s.validFrom ∧ tx.ttl = s.invalidFrom ∧ tx.networkId = s.networkId ∧
     tx.fee = s.fee.getD 0 ∧ tx.datums = s.datums.map (·.2.bytes) ∧
     tx.scripts = s.scripts.map (fun e => (e.2.kind, e.2.body.bytes)) ∧ tx.aux = s.aux ∧
-    tx.scriptDataHash = s.langViews.isSome ∧ tx.auxDataHash = s.aux.isSome ∧
+    tx.scriptDataHash = scriptDataHashOf tx.redeemers tx.datums s.langViews ∧ tx.auxDataHash = s.aux.isSome ∧
     (∀ n, tx.networkId = some n → n ≤ 1) ∧
     (match s.collOut with
       | some o => ∃ b, tx.collateralReturn = some b ∧ b.addr = o.addr ∧ b.coin = o.coin ∧ b.datum = o.datum ∧ b.script = o.script
@@ -474,6 +480,29 @@ theorem build_content (s : Staging) (tx : BuiltTx) (h : build s = .ok tx) :
       obtain ⟨b, hb, rfl⟩ := hc
       obtain ⟨h1, h2, h3, h4, _⟩ := buildBabbageRaw_ok o b hb
       exact ⟨b, rfl, h1, h2, h3, h4⟩
+
+/-- `script_data_hash` is present exactly when language views were staged and the witness set
+    carries a redeemer or a datum; it is then BLAKE2b-256 (`Model/Blake2b.lean`) of C08's
+    `ScriptData` hash input: the redeemers as written (or `a0`), the datum set as written, the
+    canonical language-view encoding when there are redeemers (else `a0`). -/
+theorem build_script_data_hash (s : Staging) (tx : BuiltTx) (h : build s = .ok tx) :
+    (tx.scriptDataHash.isSome = (s.langViews.isSome && (!tx.redeemers.isEmpty || !tx.datums.isEmpty))) ∧
+    ∀ lv, s.langViews = some lv → (!tx.redeemers.isEmpty || !tx.datums.isEmpty) = true →
+      tx.scriptDataHash = some ((Blake2b.blake2b256 (ScriptData.hashInput
+        { redeemers := if tx.redeemers.isEmpty then none else some (redeemersBytes tx.redeemers),
+          datums := if tx.datums.isEmpty then none else some (datumSetBytes tx.datums),
+          languageViews := if tx.redeemers.isEmpty then none else some (ScriptData.fromList lv) })).map (·.toNat)) := by
+  have hc := (build_content s tx h).2.2.2.2.2.2.2.2.2.2.1
+  rw [hc]
+  constructor
+  · cases hl : s.langViews with
+    | none => simp [scriptDataHashOf]
+    | some lv =>
+      simp only [scriptDataHashOf, ScriptData.buildFor, Option.isSome_some, Bool.true_and]
+      cases hr : tx.redeemers.isEmpty <;> cases hd : tx.datums.isEmpty <;> simp
+  · intro lv hl hne
+    simp only [hl, scriptDataHashOf, ScriptData.buildFor, ScriptData.hashOf]
+    cases hr : tx.redeemers.isEmpty <;> cases hd : tx.datums.isEmpty <;> simp [hr, hd] at hne ⊢
 
 /-! ## the id (model level: hash and encoder are parameters) -/
 
@@ -695,6 +724,15 @@ theorem build_accepts_iff (s : Staging) : (∃ tx, build s = .ok tx) ↔ ¬ Refu
       | panic => exact absurd hw (witnessDatums_ne_panic _)
     obtain ⟨ds, hds⟩ := hds
     exact ⟨_, outputs, ho, (), hnet, cr, hcr, (), hsc, (), hdt, rds, hrd, ds, hds, rfl⟩
+
+/-- the same with the hash function instantiated to the Lean BLAKE2b-256 of `Model/Blake2b.lean`
+    (the encoder of the transaction body is still a parameter: it is not modelled here) -/
+theorem build_id_is_blake2b256_of_body_span {Body Tx : Type} (encBody : Body → Blake2b.Bytes)
+    (encTx : Tx → Blake2b.Bytes) (bodyOf : Tx → Body) (bodySpan : Blake2b.Bytes → Blake2b.Bytes)
+    (hspan : ∀ t, bodySpan (encTx t) = encBody (bodyOf t)) (t : Tx) :
+    let b : Built Blake2b.Bytes Blake2b.Bytes := { txBytes := encTx t, txHash := Blake2b.blake2b256 (encBody (bodyOf t)) }
+    b.txHash = Blake2b.blake2b256 (bodySpan b.txBytes) :=
+  build_id_is_hash_of_body_span Blake2b.blake2b256 encBody encTx bodyOf bodySpan hspan t _ rfl
 
 /-! ## Non-vacuity -/
 section
